@@ -99,9 +99,12 @@ class BaseGopherProtocol:
             self.filenotfound(str(e))
         except IOError as e:
             GopherExceptions.log(e, self, None)
-            self.filenotfound(e.strerror)
+            self.filenotfound(e.strerror or str(e))
 
     def filenotfound(self, msg: str):
+        # The error is one menu line: a selector echoed in it cannot start
+        # lines or fields of its own.
+        msg = msg.replace("\t", " ").replace("\r", " ").replace("\n", " ")
         self.wfile.write(
             f"3{msg}\t\terror.host\t1\r\n".encode(errors="surrogateescape")
         )
